@@ -31,7 +31,7 @@ var mutants = []Mutant{
 	{"C01", "no-clamp-delta", "internal/ccdirectives.go", [][2]string{{"seconds = min(seconds, maxDeltaSeconds)\n", ""}}, "C01.6", "max-age wraps negative"},
 	{"C01", "apparent-age-unclamped", "internal/freshness.go", [][2]string{{"apparentAge := max(responseTime.Sub(date), 0)", "apparentAge := responseTime.Sub(date)"}}, "C01.4", "skewed Date gives negative age"},
 	// ---- C02
-	{"C02", "request-no-cache-ignored", "roundtripper.go", [][2]string{{"needsValidation = ccReq.NoCache() ||\n\t\t(freshness.IsStale", "needsValidation = (freshness.IsStale"}}, "C02.1", "request no-cache served from store (D03)"},
+	{"C02", "request-no-cache-ignored", "roundtripper.go", [][2]string{{"needsValidation = ccReq.NoCache() || validateNow ||", "needsValidation = validateNow ||"}}, "C02.1", "request no-cache served from store (D03)"},
 	{"C02", "clone-shares-header", "helpers.go", [][2]string{{"req2.Header = req.Header.Clone()", "req2.Header = req.Header"}}, "C02.3", "conditional headers written into the caller's header map"},
 	{"C02", "swr-no-strip", "roundtripper.go", [][2]string{{"\tif noCacheQualified {\n\t\t// Qualified no-cache: the nominated fields must not be replayed without validation", "\tif false {\n\t\t// Qualified no-cache: the nominated fields must not be replayed without validation"}}, "C02.4", "no-cache=\"Set-Cookie\" replayed on the SWR path (D06)"},
 	{"C02", "handler-serves-on-any-success", "internal/validationresponsehandler.go", [][2]string{{"resp.StatusCode == http.StatusNotModified {", "resp.StatusCode < 400 {"}}, "C02.5", "200 answered with the old body"},
@@ -56,7 +56,7 @@ var mutants = []Mutant{
 	{"C05", "table-lacks-transfer-encoding", "internal/helpers.go", [][2]string{{"\t\t\"Transfer-Encoding\": {},\n", ""}}, "C05", "TE stored (anchor lost or table incomplete)"},
 	{"C05", "table-lacks-keep-alive", "internal/helpers.go", [][2]string{{"\t\t\"Keep-Alive\":        {},\n", ""}}, "C05.1", "Keep-Alive stored"},
 	{"C05", "no-strip-before-store", "internal/responsestorerer.go", [][2]string{{"\tremoveHopByHopHeaders(resp)\n", ""}}, "C05.2", "hop-by-hop fields stored"},
-	{"C05", "dump-without-body", "internal/entry.go", [][2]string{{"httputil.DumpResponse(r.Data, true)", "httputil.DumpResponse(r.Data, false)"}}, "C05.4", "bodies not stored"},
+	{"C05", "dump-without-body", "internal/entry.go", [][2]string{{"httputil.DumpResponse(&head, true)", "httputil.DumpResponse(&head, false)"}}, "C05.4", "bodies not stored"},
 	{"C05", "merge-copies-content-length", "internal/helpers.go", [][2]string{{"\tomitted[\"Content-Length\"] = struct{}{}\n", ""}}, "C05.3", "304 Content-Length truncates the body"},
 	{"C05", "debug-header-leak", "roundtripper.go", [][2]string{{"\tinternal.CacheStatusMiss.ApplyTo(resp.Header)\n", "\tinternal.CacheStatusMiss.ApplyTo(resp.Header)\n\tresp.Header.Set(\"X-Debug-Key\", urlKey)\n"}}, "C05.5", "extra header on served responses"},
 	{"C05", "status-before-store", "roundtripper.go", [][2]string{{"\tccResp := internal.ParseCCResponseDirectives(resp.Header)\n\t// A 304 on this path", "\tccResp := internal.ParseCCResponseDirectives(resp.Header)\n\tinternal.CacheStatusMiss.ApplyTo(resp.Header)\n\t// A 304 on this path"}}, "C05.6", "stored copies carry the cache status"},
@@ -76,7 +76,7 @@ var mutants = []Mutant{
 	{"C07", "patch-is-safe", "internal/helpers.go", [][2]string{{"\t\t\"PROPFIND\", \"REPORT\", \"SEARCH\", \"QUERY\", \"PRI\":", "\t\t\"PROPFIND\", \"REPORT\", \"SEARCH\", \"QUERY\", \"PRI\", http.MethodPatch:"}}, "C07.1", "PATCH does not invalidate"},
 	{"C07", "origin-ignores-scheme", "internal/helpers.go", [][2]string{{"return strings.EqualFold(a.Scheme, b.Scheme) &&\n\t\tstrings.EqualFold(a.Hostname(), b.Hostname())", "return strings.EqualFold(a.Hostname(), b.Hostname())"}}, "C07.5", "http evicts https"},
 	// ---- C08
-	{"C08", "no-304-write-back", "internal/validationresponsehandler.go", [][2]string{{"\t\tif r.rs != nil {\n\t\t\t// Write the freshened response back", "\t\tif false {\n\t\t\t// Write the freshened response back"}}, "C08.1", "D17"},
+	{"C08", "no-304-write-back", "internal/validationresponsehandler.go", [][2]string{{"\t\tif r.rs != nil && mayStore {\n\t\t\t// Write the freshened response back", "\t\tif false && mayStore {\n\t\t\t// Write the freshened response back"}}, "C08.1", "D17"},
 	{"C08", "always-append", "internal/responsestorerer.go", [][2]string{{"refs[refIndex] = refEntry // Update existing response reference", "refs = append(refs, refEntry)"}}, "C08.5", "replaced variant stays listed"},
 	{"C08", "write-back-old-times", "internal/validationresponsehandler.go", [][2]string{{"\t\t\t\tctx.Refs,\n\t\t\t\tctx.Start,\n\t\t\t\tctx.End,\n\t\t\t\tctx.RefIndex,\n\t\t\t)\n\t\t}", "\t\t\t\tctx.Refs,\n\t\t\t\tctx.Stored.RequestedAt,\n\t\t\t\tctx.Stored.ReceivedAt,\n\t\t\t\tctx.RefIndex,\n\t\t\t)\n\t\t}"}}, "C08.2", "age does not restart"},
 	{"C08", "background-context-without-refs", "roundtripper.go", [][2]string{{"\t\t\tStored:    stored,\n\t\t\tRefs:      refs,\n\t\t\tRefIndex:  refIndex,\n\t\t\tFreshness: freshness,\n\t\t}\n\t\t//nolint:bodyclose", "\t\t\tStored:    stored,\n\t\t\tFreshness: freshness,\n\t\t}\n\t\t//nolint:bodyclose"}}, "C08.4", "D18"},
@@ -98,7 +98,7 @@ var mutants = []Mutant{
 	{"C11", "swr-no-age", "roundtripper.go", [][2]string{{"\tinternal.SetAgeHeader(stored.Data, r.clock, freshness.Age)\n\tinternal.CacheStatusStale.ApplyTo(stored.Data.Header)", "\tinternal.CacheStatusStale.ApplyTo(stored.Data.Header)"}}, "C11.1", "D22"},
 	{"C11", "miss-marked-hit", "roundtripper.go", [][2]string{{"internal.CacheStatusMiss.ApplyTo(resp.Header)", "internal.CacheStatusHit.ApplyTo(resp.Header)"}}, "C11.3", "origin response marked HIT"},
 	{"C11", "504-without-status", "helpers.go", [][2]string{{"\t_, _ = buf.WriteString(\n\t\tinternal.CacheStatusHeader + \": \" + internal.CacheStatusBypass.Value + \"\\r\\n\",\n\t)\n", ""}, {"\t\"net/http\"\n\n\t\"github.com/bartventer/httpcache/internal\"\n", "\t\"net/http\"\n"}}, "C11.6", "504 lacks the status field"},
-	{"C11", "stale-marked-hit", "roundtripper.go", [][2]string{{"\tif freshness.IsStale {\n\t\t// Served although stale (only-if-cached): say so.", "\tif false {\n\t\t// Served although stale (only-if-cached): say so."}}, "C11.4", "D24"},
+	{"C11", "stale-marked-hit", "roundtripper.go", [][2]string{{"\tif freshness.IsStale || freshness.Age.Value >= freshness.UsefulLife {\n", "\tif false {\n"}}, "C11.4", "D24"},
 	{"C11", "legacy-not-cleared", "internal/header.go", [][2]string{{"\t} else {\n\t\t// Not served from this cache: do not forward a marker set by an upstream cache.\n\t\theader.Del(FromCacheHeader)\n\t}", "\t}"}}, "C11.5", "D25"},
 	{"C11", "age-without-resident-correction", "internal/helpers.go", [][2]string{{"adjusted := max(SaturatingAdd(age.Value, clock.Since(age.Timestamp)), 0)", "adjusted := max(age.Value, 0)"}}, "C11.2", "Age not advanced since computed"},
 	{"C11", "revalidated-on-any", "internal/validationresponsehandler.go", [][2]string{{"\t\tCacheStatusMiss.ApplyTo(resp.Header)\n\t\tr.l.LogCacheMiss(req, ctx.URLKey, ctx.ToMisc(ccResp))", "\t\tCacheStatusRevalidated.ApplyTo(resp.Header)\n\t\tr.l.LogCacheMiss(req, ctx.URLKey, ctx.ToMisc(ccResp))"}}, "C11.3", "full reply marked REVALIDATED"},
@@ -125,7 +125,7 @@ var mutants = []Mutant{
 	{"C14", "fs-delete-plain-error", "store/fscache/fscache.go", [][2]string{{"\t\t\terr = errors.Join(driver.ErrNotExist, err)\n", "\t\t\terr = fmt.Errorf(\"missing: %w\", err)\n"}}, "C14.3", "Delete of absent key not ErrNotExist"},
 	{"C14", "registry-unlocked", "store/internal/registry/registry.go", [][2]string{{"func (dr *driverRegistry) RegisterDriver(name string, driver driver.Driver) {\n\tdr.mu.Lock()\n\tdefer dr.mu.Unlock()\n", "func (dr *driverRegistry) RegisterDriver(name string, driver driver.Driver) {\n"}}, "C14.1", "registry race"},
 	{"C14", "keys-filter-on-file-name", "store/fscache/fscache.go", [][2]string{{"\t\tif strings.HasPrefix(key, prefix) {", "\t\tif strings.HasPrefix(d.Name(), prefix) {"}}, "C14.6", "prefix compared with the encoded name"},
-	{"C14", "decoder-std-alphabet", "store/fscache/filenamer.go", [][2]string{{"\t// Handle plain base64\n\tdecoded, err := base64.RawURLEncoding.DecodeString(name)", "\t// Handle plain base64\n\tdecoded, err := base64.RawStdEncoding.DecodeString(name)"}}, "C14.5", "Keys() garbage"},
+	{"C14", "decoder-std-alphabet", "store/fscache/filenamer.go", [][2]string{{"decoded, err := base64.RawURLEncoding.DecodeString(encoded.String())", "decoded, err := base64.RawStdEncoding.DecodeString(encoded.String())"}}, "C14.5", "Keys() garbage"},
 	{"C14", "api-lowercases-key", "store/expapi/expapi.go", [][2]string{{"func keyFromRequest(r *http.Request) string { return r.PathValue(\"key\") }", "func keyFromRequest(r *http.Request) string { return strings.ToLower(r.PathValue(\"key\")) }"}, {"import (\n\t\"encoding/json\"", "import (\n\t\"strings\"\n\t\"encoding/json\""}}, "C14.4", "API addresses another key"},
 	// ---- C15
 	{"C15", "write-in-place", "store/fscache/fscache.go", [][2]string{{"\tf, err := c.root.Create(tmp)\n", "\tf, err := c.root.Create(name)\n"}, {"\tif err := c.root.Rename(tmp, name); err != nil {\n\t\treturn fail(err)\n\t}\n", "\t_ = tmp\n"}}, "C15.1", "D33"},
@@ -144,7 +144,7 @@ var mutants = []Mutant{
 	{"C17", "option-error-ignored", "store/fscache/fscache.go", [][2]string{{"\t\tif err := opt.apply(c); err != nil {\n\t\t\treturn nil, err\n\t\t}", "\t\t_ = opt.apply(c)"}}, "C17.6", "Open succeeds without encryption"},
 	{"C17", "seal-without-nonce-prefix", "store/fscache/encrypt.go", [][2]string{{"e.gcm.Seal(nonce, nonce, data, nil)", "e.gcm.Seal(nil, nonce, data, nil)"}}, "C17.3", "nonce lost"},
 	{"C17", "constant-nonce", "store/fscache/encrypt.go", [][2]string{{"\tif _, err := io.ReadFull(e.r, nonce); err != nil {\n\t\treturn nil, err\n\t}\n", ""}}, "C17.4", "identical ciphertexts"},
-	{"C17", "env-key-ignored", "store/fscache/fscache.go", [][2]string{{"key := cmp.Or(u.Query().Get(\"encrypt_key\"), os.Getenv(\"FSCACHE_ENCRYPT_KEY\"))", "key := u.Query().Get(\"encrypt_key\")"}}, "C17.5", "environment key not honoured"},
+	{"C17", "env-key-ignored", "store/fscache/fscache.go", [][2]string{{"key := cmp.Or(query.Get(\"encrypt_key\"), os.Getenv(\"FSCACHE_ENCRYPT_KEY\"))", "key := query.Get(\"encrypt_key\")"}}, "C17.5", "environment key not honoured"},
 	// ---- C18
 	{"C18", "bypass-forwards-only-if-cached", "roundtripper.go", [][2]string{{"\tif internal.ParseCCRequestDirectives(req.Header).OnlyIfCached() {\n\t\t// RFC 9111 §5.2.1.7: nothing is stored", "\tif false && internal.ParseCCRequestDirectives(req.Header).OnlyIfCached() {\n\t\t// RFC 9111 §5.2.1.7: nothing is stored"}}, "C18.1", "D35 (bypass path)"},
 	{"C18", "miss-only-when-no-index", "roundtripper.go", [][2]string{{"\tif ccReq.OnlyIfCached() {\n\t\tr.logger.LogCacheMiss(", "\tif ccReq.OnlyIfCached() && refs == nil {\n\t\tr.logger.LogCacheMiss("}}, "C18.1", "other-variant-only state reaches the origin"},
@@ -155,17 +155,38 @@ var mutants = []Mutant{
 	{"C01", "age-sum-wraps", "internal/freshness.go", [][2]string{{"Value:     SaturatingAdd(correctedInitialAge, residentTime),", "Value:     correctedInitialAge + residentTime,"}}, "C01.10", "D39"},
 	{"C13", "sie-window-wraps", "internal/cacheabilityevaluator.go", [][2]string{{"if age < SaturatingAdd(freshness.UsefulLife, dur) {", "if age < freshness.UsefulLife+dur {"}}, "C13.7", "D40"},
 	{"C02", "swr-ignores-request-max-age", "roundtripper.go", [][2]string{{"if staleFor >= 0 && staleFor < swr && !exceedsReqMaxAge {", "if staleFor >= 0 && staleFor < swr {\n\t\t\t_ = exceedsReqMaxAge"}}, "C02.1", "D41"},
-	{"C03", "opaque-key-without-origin", "internal/urlkeyer.go", [][2]string{{"return u.Scheme + \"://\" + strings.ToLower(u.Host) + \" \" + u.Opaque", "return u.Opaque"}}, "C03.2", "D38"},
+	{"C03", "opaque-key-without-origin", "internal/urlkeyer.go", [][2]string{{"return u.Scheme + \"://\" + strings.ToLower(u.Host) + \" \" + target", "return target"}}, "C03.2", "D38"},
 	{"C19", "append-not-deduplicated", "internal/responsestorerer.go", [][2]string{{"\t\trefIndex = slices.IndexFunc(refs, sameVariant)\n", "\t\trefIndex = -1\n"}}, "C19.1", "D36"},
 	{"C19", "variants-not-deleted", "internal/cacheinvalidator.go", [][2]string{{"\tfor h := range refs.ResponseIDs() {\n\t\tdel(h)\n\t}\n\tr.invalidateLocationHeaders", "\tr.invalidateLocationHeaders"}}, "C19.2", "orphaned entries"},
 	// ---- C20
 	{"C20", "swr-synchronous", "roundtripper.go", [][2]string{{"\tgo r.backgroundRevalidate(req2,", "\tr.backgroundRevalidate(req2,"}}, "C20", "caller waits for the origin"},
-	{"C20", "no-timeout", "roundtripper.go", [][2]string{{"ctx, cancel := context.WithTimeout(req.Context(), r.swrTimeout)", "ctx, cancel := context.WithCancel(req.Context())"}}, "C20.3", "background request never cancelled"},
+	{"C20", "no-timeout", "roundtripper.go", [][2]string{{"ctx, cancel := context.WithTimeout(context.WithoutCancel(req.Context()), r.swrTimeout)", "ctx, cancel := context.WithCancel(context.WithoutCancel(req.Context()))"}}, "C20.3", "background request never cancelled"},
 	{"C20", "negative-timeout-kept", "roundtripper.go", [][2]string{{"rt.swrTimeout = cmp.Or(max(rt.swrTimeout, 0), DefaultSWRTimeout)", "rt.swrTimeout = cmp.Or(rt.swrTimeout, DefaultSWRTimeout)"}}, "C20.4", "negative timeout cancels immediately"},
 	{"C20", "unbuffered-errc", "roundtripper.go", [][2]string{{"errc := make(chan error, 1)", "errc := make(chan error)"}}, "C20.5", "goroutine leak on timeout"},
 	{"C20", "double-spawn", "roundtripper.go", [][2]string{{"\tgo r.backgroundRevalidate(req2, stored.ID, urlKey, freshness, ccReq, refs, refIndex)\n", "\tgo r.backgroundRevalidate(req2, stored.ID, urlKey, freshness, ccReq, refs, refIndex)\n\tgo r.backgroundRevalidate(req2, stored.ID, urlKey, freshness, ccReq, refs, refIndex)\n"}}, "C20.2", "two revalidations"},
 	{"C20", "background-unconditional", "roundtripper.go", [][2]string{{"\treq2 = withConditionalHeaders(req2, stored.Data.Header)\n\t// Background revalidation", "\t// Background revalidation"}}, "C20.6", "unconditional background fetch"},
 	{"C20", "request-without-timeout-context", "roundtripper.go", [][2]string{{"\treq = req.WithContext(ctx)\n\terrc := make(chan error, 1)", "\terrc := make(chan error, 1)"}}, "C20.3", "origin call not bound to the timeout"},
+	// ---- reverts of the round-3 repairs (D32, D44-D60)
+	{"C03", "opaque-key-drops-query", "internal/urlkeyer.go", [][2]string{{"\t\tif u.RawQuery != \"\" {\n\t\t\ttarget += \"?\" + u.RawQuery\n\t\t}\n", ""}}, "C03.2", "D44"},
+	{"C14", "directories-without-marker", "store/fscache/filenamer.go", [][2]string{{"parts = append(parts, encoded[i:end]+dirMarker)", "parts = append(parts, encoded[i:end])"}}, "C14.9", "D32"},
+	{"C14", "empty-key-without-name", "store/fscache/filenamer.go", [][2]string{{"\tif encoded == \"\" {\n\t\treturn dirMarker // the empty key still needs a file name\n\t}\n", ""}}, "C14", "D32 (empty key)"},
+	{"C12", "empty-list-is-qualified", "internal/ccdirectives.go", [][2]string{{"\tmembers := TrimmedCSVSeq(string(s))\n\tfor range members {\n\t\treturn members, true\n\t}\n\treturn nil, false\n", "\tif len(s) == 0 {\n\t\treturn\n\t}\n\treturn TrimmedCSVSeq(string(s)), true\n"}}, "C12.12", "D45"},
+	{"C12", "last-occurrence-wins", "internal/ccdirectives.go", [][2]string{{"\t\t\tcontinue\n\t\t}\n\t\tdirectives[name] = argument", "\t\t}\n\t\tdirectives[name] = argument"}}, "C12.11", "D46"},
+	{"C12", "bare-form-does-not-win", "internal/ccdirectives.go", [][2]string{{"\t\t\tif argument == \"\" && (name == \"no-cache\" || name == \"private\") {\n\t\t\t\tdirectives[name] = \"\"\n\t\t\t}\n", ""}}, "C12", "D46 (bare form)"},
+	{"C08", "merge-keeps-stored-age", "internal/helpers.go", [][2]string{{"\tstoredResp.Header.Del(\"Age\")\n", ""}}, "C08.3", "D47"},
+	{"C01", "empty-expires-is-absent", "internal/entry.go", [][2]string{{"\tif _, found = r.Data.Header[\"Expires\"]; !found {\n\t\treturn\n\t}\n\texpiresStr := r.Data.Header.Get(\"Expires\")\n", "\texpiresStr := r.Data.Header.Get(\"Expires\")\n\tif expiresStr == \"\" {\n\t\treturn\n\t}\n\tfound = true\n"}}, "C01.14", "D48"},
+	{"C11", "max-stale-served-as-hit", "roundtripper.go", [][2]string{{"\tif freshness.IsStale || freshness.Age.Value >= freshness.UsefulLife {\n", "\tif freshness.IsStale {\n"}}, "C11.4", "D49"},
+	{"C09", "dump-live-response", "internal/entry.go", [][2]string{{"\thead.Close = false\n", ""}}, "C09.2", "D50"},
+	{"C09", "dump-drops-trailers", "internal/entry.go", [][2]string{{"\tif len(head.Trailer) > 0 && len(head.TransferEncoding) == 0 {\n\t\thead.TransferEncoding = []string{\"chunked\"}\n\t}\n", ""}}, "C09.2", "D51"},
+	{"C10", "clone-keeps-nil-header", "helpers.go", [][2]string{{"\tif req2.Header == nil {\n\t\treq2.Header = make(http.Header) // Clone of a nil header is nil; the caller sets fields on it\n\t}\n", ""}}, "C10.13", "D55"},
+	{"C20", "background-inherits-cancellation", "roundtripper.go", [][2]string{{"context.WithTimeout(context.WithoutCancel(req.Context()), r.swrTimeout)", "context.WithTimeout(req.Context(), r.swrTimeout)"}}, "C20.3", "D56"},
+	{"C09", "id-not-utf8-safe", "internal/normalization.go", [][2]string{{"\turlKey = storableValue(urlKey)\n", ""}}, "C09.6", "D57"},
+	{"C17", "unknown-encrypt-value-means-off", "store/fscache/fscache.go", [][2]string{{"\tcase \"\", \"off\":\n\tdefault:\n\t\t// An unknown spelling (ON, true, ...) is a request for encryption that cannot be honoured.\n\t\treturn nil, fmt.Errorf(\"fscache: unknown value %q for the encrypt parameter\", encrypt)\n", "\tdefault:\n"}}, "C17.5", "D58"},
+	{"C06", "no-store-304-written-back", "internal/validationresponsehandler.go", [][2]string{{"if r.rs != nil && mayStore {", "if r.rs != nil {\n\t\t\t_ = mayStore"}}, "C06.10", "D59"},
+	{"C06", "no-store-304-request-only", "internal/validationresponsehandler.go", [][2]string{{"mayStore := !ctx.CCReq.NoStore() && !ParseCCResponseDirectives(resp.Header).NoStore()", "mayStore := !ctx.CCReq.NoStore()"}}, "C06.10", "D59 (response side)"},
+	{"C11", "max-age-zero-reaches-calculator", "roundtripper.go", [][2]string{{"\t\tdelete(freshnessReq, \"max-age\")\n", ""}}, "C11.2", "D60"},
+	{"C02", "max-age-zero-not-validated", "roundtripper.go", [][2]string{{"needsValidation = ccReq.NoCache() || validateNow ||", "needsValidation = ccReq.NoCache() ||"}}, "C02.1", "D60"},
+	{"C02", "immutable-overrides-max-age-zero", "roundtripper.go", [][2]string{{"ccResp.Immutable() && !ccReq.NoCache() && !validateNow &&", "ccResp.Immutable() && !ccReq.NoCache() &&"}}, "C02.1", "D60"},
 }
 
 // MutantResult is one row of the kill matrix.
